@@ -16,6 +16,7 @@ CONSTANTS
   EmitEvery = 40
   Faults = {}
   WithBind = FALSE
+  MaxNow = 0
   WithBridge = FALSE
 INVARIANTS Emit NoViolation
 CHECK_DEADLOCK FALSE
